@@ -138,6 +138,7 @@ class Interp:
         self.universals = []          # (seq, fact) universally quantified facts, instantiated on demand
         self.seen_idx = {}
         self.extreme_facts = []
+        self.loop_guards = []
 
     # ------------------------------------------------------------------ decisions
     def add_pc(self, c, tag=None):
@@ -214,17 +215,23 @@ class Interp:
             return True
         return False
 
-    def add_universal(self, seq, fact):
-        self.universals.append((seq, fact))
-        for i in self.seen_idx.get(id(seq), []):
-            self.add_pc(z3.Implies(z3.And(i >= 0, i < seq.length), to_z3(fact(i))))
+    def add_universal(self, seq, fact, length=None):
+        """fact(i) holds for all 0 <= i < length (length: snapshot of the sequence length
+        at registration; the fact must not read the sequence object dynamically).
+        Instantiated on demand (instantiate_universals) and at the two boundary indices."""
+        length = seq.length if length is None else length
+        self.universals.append((seq, fact, length))
+        if concrete_int(length) == 0:
+            return
+        for i in list(self.seen_idx.get(id(seq), [])) + [z3.IntVal(0), length - 1]:
+            self.add_pc(z3.Implies(z3.And(i >= 0, i < length), to_z3(fact(i))))
 
     def instantiate_universals(self, seq, i):
         i = to_int(i)
         self.seen_idx.setdefault(id(seq), []).append(i)
-        for s, fact in self.universals:
-            if s is seq:
-                self.add_pc(z3.Implies(z3.And(i >= 0, i < seq.length), to_z3(fact(i))))
+        for s, fact, length in self.universals:
+            if s is seq and concrete_int(length) != 0:
+                self.add_pc(z3.Implies(z3.And(i >= 0, i < length), to_z3(fact(i))))
 
     def prove(self, name, goal, info=None):
         """record + discharge an obligation under the current path condition."""
@@ -707,6 +714,8 @@ class Interp:
                 key = o.cls + '.' + attr + '.setter'
                 if self.registry and key in self.registry.models:
                     return self.registry.models[key](self, [o, v], {})
+            for g in self.loop_guards:
+                g.field_written(o, attr, o.fields.get(attr), v)
             o.fields[attr] = v
             return
         if is_v(o) and frame is not None and node is not None and isinstance(node.value, ast.Name):
@@ -718,7 +727,12 @@ class Interp:
 
     def setitem(self, o, idx, v):
         from . import lib
+        self.note_mutation(o)
         return lib.setitem(self, o, idx, v)
+
+    def note_mutation(self, container):
+        for g in self.loop_guards:
+            g.mutated(container)
 
     # ------------------------------------------------------------------ expressions
     def eval(self, node, frame):
